@@ -447,7 +447,7 @@ def _expected(rep, M, C, RO, END, file):
         return
     # not in the recognised form: the accessor is interpreted (E-ABS) on readouts whose end lines cover both sides of every test the reference makes
     from sa.abseval import AbsEval, AbsRaise
-    texts = [b"", b"0", b"0000", b"ABCD", b"abcd", b"00ff", b"1", b"12345", b" 12AB", b"12AB  ", b"\t7f", b"G123", b"12 34", b"0x1F", b"-1", b"+1f", b"1_0", b"\xff\xfe", b"12\xe9", b" ", b"12AB\r"]
+    texts = [b"", b"0", b"0000", b"ABCD", b"abcd", b"00ff", b"1", b"12345", b" 12AB", b"12AB  ", b"\t7f", b"G123", b"12 34", b"0x1F", b"-1", b"+1f", b"1_0", b"\xff\xfe", b"12\xe9", b" ", b"12AB\r", b"\r\n12AB", b"12\r\nAB", b"12AB\r\n1-0:1.8.0(1*kWh)"]
     bad_w = und_w = None
     for t in texts:
         raw = b"/ABC5x\r\n1-0:1.8.0(1*kWh)\r\n!" + t + b"\r\n"
@@ -474,7 +474,7 @@ def _expected(rep, M, C, RO, END, file):
     if und_w:
         rep.undecide(f"R4 {und_w}")
     elif bad_w is None:
-        rep.ok("R4", "expected_checksum", f"interpreted on {len(texts)} end lines (empty, one to five digits, both letter cases, surrounding white space, non-hexadecimal and non-ASCII text): "
+        rep.ok("R4", "expected_checksum", f"interpreted on {len(texts)} end lines (empty, one to five digits, both letter cases, surrounding white space, non-hexadecimal and non-ASCII text, text continuing on further lines): "
                "int(text after '!', 16), None exactly when nothing follows '!', ValueError otherwise")
     else:
         rep.violation("R4", at, "checksum-parse", "the transmitted checksum is not `int(text after '!', base 16)`, absent only when that text is empty", file, fn.node.lineno,
